@@ -15,6 +15,49 @@ PROPS = {
         "trusted": CODEC_TRUST,
         "assumptions": ["payload lengths above usize/VarInt::MAX are unreachable (memory)"],
     },
+    "C15": {
+        "bins": ["codec"],
+        "rule": "frame/stream-header elements (valid frames of every kind, unknown and GREASE frames incl. oversize, "
+                "invalid session ids, non-minimal varints, random bytes) at every prefix length, each read by the "
+                "one-shot, buffered and async reader on the same line; every composition (chunking) of inputs <= 6 "
+                "bytes exhaustively, random scripts of give(1..n)/Pending beyond; four typestates on sequences of "
+                "1..4 elements; non-trivial = distinct line whose input is non-empty",
+        "extracted_keys": ["FRAME_MAX_PARSE_PAYLOAD", "GREASE_BASE", "GREASE_STEP"],
+        "trusted": CODEC_TRUST,
+        "assumptions": ["AsyncRead sources obey the trait contract (Ok(0) only at end of stream)"],
+    },
+    "C17": {
+        "bins": ["codec"],
+        "rule": "all four low-bit classes x boundary magnitudes (every power of two up to 2^62) and random 62-bit "
+                "ids for classification and session-id acceptance; quarter ids at and beyond 2^60-1; "
+                "non-trivial = distinct line with id >= 4",
+        "extracted_keys": ["QSTREAM_MAX", "ERROR_CODES"],
+        "trusted": CODEC_TRUST,
+        "assumptions": [],
+    },
+}
+
+LEVEL_TEXT = {
+    "C14": "Lean 4 theorems over the executable codec model: round trip, exact size, shortest form and "
+           "untouched-too-small-destination for every value / payload / remaining input; tied to /repo by "
+           "regenerated constants and by running the real encoders/decoders against the compiled model",
+    "C15": "Lean 4 theorem: for EVERY byte string, end-of-source kind and oracle (chunking x Pending pattern) the "
+           "async reader's completed run equals the one-shot read (value, error class, bytes consumed; "
+           "ImmediateFin iff nothing was available); buffered = one-shot with offset moved only on a value; proper "
+           "prefixes need more. Tied to the three real readers by correspondence on identical inputs",
+    "C17": "Lean 4 theorems for all 2^62 ids: acceptance iff client-initiated bidirectional, mutual inverses and "
+           "ranges (unsafe/debug_assert preconditions), QUIC classification, and the accept-side session filter "
+           "never delivering foreign items; tied by regenerated constants and correspondence",
+}
+
+LEVEL_NOTE = {
+    "C14": "Trusted: Lean kernel (+leanchecker in thorough), axioms propext/Classical.choice/Quot.sound, the translator, "
+           "the harness+driver correspondence. Modelled not verified: octets varint get/put. Settings/QPACK/header "
+           "round trips: see the theorems listed in the evidence (growing).",
+    "C15": "Trusted as C14. The Rust futures are modelled as resumable machines (GetVarint/GetBuffer field for field); "
+           "the tie is differential (all prefixes, exhaustive chunkings of short inputs).",
+    "C17": "Trusted as C14. The driver half (foreign streams refused with the registered code on a live connection) is "
+           "exercised by the e2e correspondence when present in the evidence.",
 }
 
 
